@@ -28,7 +28,7 @@ def gen_cases(seed, tier, n):
     """C08's cases, every fourth replaced by a trace that is NOT causally consistent (kernels overlapping the previous kernel of their stream by
     1-2 units, kernels starting before their launch call): the analysis tolerates the negative edge weights by zeroing the graph's weight while
     the stored edge object keeps the negative value, so graph weight and object weight differ -- both must survive a save / restore"""
-    out = pC08.gen_cases(seed, tier, n)
+    out = pC08.gen_cases_shared(seed, tier, n)
     for i in range(len(out)):
         if i % 4 == 3:
             c = tracegen.gen_case(seed, i, tracegen.PROFILES["cp_neg"])
